@@ -151,6 +151,7 @@ Record scase := mkSCase
     sevents : list event;
     sstarts : list start_obs;                 (* per server: how Start ended *)
     sroutes : list (list (string * string));  (* per server: Server.Routes() after the last event *)
+    sprinted : list (list string);            (* per server: the lines of Server.PrintRoutes() *)
     safter : list (list (string * string));   (* the user's tables after the last event *)
     sreqs : list sreq }.
 
@@ -168,6 +169,16 @@ Definition route_agrees (g : reg) (o : string * string) : bool :=
   | Some _ => rpath g =? snd o
   | None => match snd o with String c _ => negb (Ascii.eqb c slash) | EmptyString => true end
   end.
+
+(* PrintRoutes: one "METHOD path" line per route, sorted: compared as a bag (when every route
+   of the server is rooted; an unrooted joined path is only known to be unrooted) *)
+Definition route_line (g : reg) : string := rmethod g ++ " " ++ rpath g.
+Definition count_of (x : string) (l : list string) : nat := List.length (filter (String.eqb x) l).
+Definition bag_eqb (a b : list string) : bool :=
+  (List.length a =? List.length b)%nat && forallb (fun x => (count_of x a =? count_of x b)%nat) a.
+Definition printed_agrees (regs : list reg) (o : list string) : bool :=
+  if forallb (fun g => match clean_path (rpath g) with Some _ => true | None => false end) regs
+  then bag_eqb (map route_line regs) o else true.
 
 Definition written_agrees (g : reg) (o : string * string) : bool :=
   (rmethod g =? fst o) && (rpath g =? snd o).
@@ -195,6 +206,7 @@ Definition s_agrees (s : scase) : bool :=
   let ids := seq_from 0 (List.length (scfgs s)) in
   forallb2 (fun i o => start_agrees (start_of (wstarts w) i) o) ids (sstarts s)
   && forallb2 (fun i o => forallb2 route_agrees (engine_regs (wstore w) (wgroups w) i) o) ids (sroutes s)
+  && forallb2 (fun i o => printed_agrees (engine_regs (wstore w) (wgroups w) i) o) ids (sprinted s)
   && forallb2 (fun t o => forallb2 written_agrees t o) (wstore w) (safter s)
   && forallb (fun q =>
        match start_of (wstarts w) (sqs q) with
